@@ -22,3 +22,16 @@ TWINS = [
     T("entry-count-flipped-operands", Z, "    if len(infos) > limits.max_entries:", "    if limits.max_entries < len(infos):"),
     T("validation-error-named", Z, "    except Exception:\n        zf.close()\n        raise\n    return zf", "    except Exception as exc:\n        zf.close()\n        raise exc\n    return zf"),
 ]
+
+# --- seeded changes kept under /verif/seeded (sub-agents saw only the property text); each must be reported by the named rule
+import os as _os
+from sa.selftest.harness import P as _P
+_SEEDS = _os.path.join(_os.path.dirname(_os.path.dirname(_os.path.dirname(_os.path.abspath(__file__)))), "seeded")
+SEEDED = [
+    ("C11-1", "C11-PRED"),
+    ("C11-2", "C11-POS"),
+    ("C11-3", "C11-OWN"),
+    ("C11-4", "C11-PRED"),
+    ("C11-5", "C11-OWN"),
+]
+MUTANTS = list(MUTANTS) + [_P("seed-" + sid, _os.path.join(_SEEDS, sid, "patch.diff"), rule) for sid, rule in SEEDED if _os.path.exists(_os.path.join(_SEEDS, sid, "patch.diff"))]
